@@ -59,9 +59,11 @@ PROFILES = {
         "scala": {"type_mappings": {"Mapped": "ScalaMapped", "Stamped": "ScalaStamp"}},
         # ("Vec<u8>" = "Uint8Array": a special type mapped onto a type with a custom JSON translation, used only as an alias target -
         # applying the mapping includes the reviver / replacer helpers)
-        "typescript": {"type_mappings": {"Mapped": "TsMapped", "Stamped": "TsStamp", "Vec<u8>": "Uint8Array"}},
-        "go": {"type_mappings": {"Mapped": "GoMapped", "Stamped": "GoStamp"}},
-        "python": {"type_mappings": {"Mapped": "PyMapped"}},
+        # ("HashMap<String,String>": a mapping keyed by a container INSTANCE, in the spelling the lookup uses - no blank after the comma -,
+        # used as an alias target; TypeScript, Go and Python look container instances up)
+        "typescript": {"type_mappings": {"Mapped": "TsMapped", "Stamped": "TsStamp", "Vec<u8>": "Uint8Array", "HashMap<String,String>": "TsLabels"}},
+        "go": {"type_mappings": {"Mapped": "GoMapped", "Stamped": "GoStamp", "HashMap<String,String>": "GoLabels"}},
+        "python": {"type_mappings": {"Mapped": "PyMapped", "HashMap<String,String>": "PyLabels"}},
     },
     # one entry lists where the single entry is also the other list's entry; mapping onto the Rust name of another field's type
     "same": {
@@ -158,6 +160,9 @@ def observe(lang, text, profile="basic"):
         name = (dg[0].get("target") or {}).get("n") if dg else None
         helpers = {"ReviverFunc", "ReplacerFunc"} <= set(o.get("helper_defs", [])) | {d["name"] for d in o["defs"]} and ("new " + str(name)) in texts[0]
         tobs["type_mappings"]["Vec<u8>"] = name if helpers else f"{name} (without its reviver / replacer helpers)"
+    if "HashMap<String,String>" in t.get("type_mappings", {}):
+        lm = [d for d in o["defs"] if d["name"] == "LabelMap"]
+        tobs["type_mappings"]["HashMap<String,String>"] = (lm[0].get("target") or {}).get("n") if lm else None
     if lang == "swift":
         obs["swift_prefix"] = prefix_as_used(o, foo["name"][:-3], {"CodableVoid"} | set(t.get("type_mappings", {}).values()))
         gen = [d for d in o["defs"] if d["name"].endswith("Gen")][0]
@@ -210,7 +215,7 @@ def run_case(work, idx, c):
     root = os.path.join(work, f"c{idx}")
     src = os.path.join(root, "a", "b", "proj")
     # profile generic_mapped: Foo also has a member of the mapped generic type, applied to arguments no backend but Go / TypeScript / Python translates
-    cli.make_tree(src, {"src/lib.rs": SRC if c.get("tables", "basic") != "generic_mapped" else SRC.replace("pub unit: (),", "pub unit: (), pub st: Stamped<OffsetDateTime, Vec<OffsetDateTime>>,") + "#[typeshare]\npub type Digest = Vec<u8>;\n"})
+    cli.make_tree(src, {"src/lib.rs": SRC if c.get("tables", "basic") != "generic_mapped" else SRC.replace("pub unit: (),", "pub unit: (), pub st: Stamped<OffsetDateTime, Vec<OffsetDateTime>>,") + "#[typeshare]\npub type Digest = Vec<u8>;\n#[typeshare]\npub type LabelMap = HashMap<String, String>;\n"})
     disc = c["disc"]
     cwd = {"flag": os.path.join(root, "elsewhere"), "cwd": root, "parent": os.path.join(root, "a"), "grandparent": os.path.join(root, "a", "b"),
            "flag_over_cwd": os.path.join(root, "elsewhere"), "flag_over_parent": os.path.join(root, "elsewhere", "sub"),
